@@ -109,6 +109,13 @@ WIND_MODELS = [
 ]
 
 
+# forced deleverage with values (Delev.tla): largest withdrawal per repayment under the health rule and the daily dollar limit
+DELEV_MODELS = [
+    {"name": "delev", "module": "MC_Delev.tla", "cfg": {"quick": "MC_DelevQuick.cfg", "thorough": "MC_DelevThorough.cfg"},
+     "setup": "setups/windmodel.json", "init_from_setup": True, "timeout": {"quick": 900, "thorough": 10000}},
+]
+
+
 RISKCFG_MODELS = [
     {"name": "riskcfg", "module": "MC_RiskCfg.tla", "cfg": {"quick": "MC_RiskCfgQuick.cfg", "thorough": "MC_RiskCfgThorough.cfg"},
      "setup": "setups/riskcfg.json", "init_from_setup": True, "timeout": {"quick": 900, "thorough": 10000}},
@@ -208,7 +215,7 @@ PROPS = {
             "rule": "each instruction list executed as one atomic transaction on the real program is one evaluation; all are non-trivial; distinct by (instruction list, result)",
             "min_nontrivial": 1000},
     "C12": risk_prop2(["configure_bank", "configure_interest", "configure_limits", "configure_emode", "clone_emode", "setup_emissions", "update_emissions",
-                       "tokenless_complete", "write_metadata", "configure_oracle", "set_fixed_price", "tx"], ADMIN_DRIVERS, models=ADMIN_MODELS + WIND_MODELS, minnt=200),
+                       "tokenless_complete", "write_metadata", "configure_oracle", "set_fixed_price", "tx"], ADMIN_DRIVERS, models=ADMIN_MODELS + WIND_MODELS + DELEV_MODELS, minnt=200),
     "C19": risk_prop2(["collect_fees", "withdraw_fees", "withdraw_fees_perm", "withdraw_insurance", "settle_emissions", "withdraw_emissions",
                        "withdraw_emissions_perm", "deposit", "withdraw"], ADMIN_DRIVERS + LEDGER_DRIVERS, models=LEDGER_MODELS, minnt=200),
     "C08": {
